@@ -10,7 +10,8 @@ A handler returns a Go `error`.  Which status the call ends with is decided from
   `errors.As`) keeps that status' code with the outermost error's text as the message; a context error
   (`errors.Is`) becomes Canceled / DeadlineExceeded; anything else — `io.EOF` included — is Unknown;
 * the wrapper (pkg/wrap): the handler goroutine hands the value to `ClientServerStream.Close`, the client's
-  `RecvMsg` returns it from `closeErrLocked()` — where `io.EOF` is the sentinel for "closed without an error" —
+  `RecvMsg` returns it from `closeErrLocked()` — where `io.EOF` is the sentinel for "closed without an error", so
+  a stored `io.EOF` is reported as Unknown "EOF" —
   and the caller reads the value the way every gRPC caller does (`status.FromError` / `status.Code`;
   cancellation and deadline expiry as such, `errors.Is`).
 
@@ -106,9 +107,9 @@ end GrpcRef
 namespace Wrap
 
 /-- `ClientServerStream.Close(err)` stores the error; `closeErrLocked()` gives `io.EOF` when none is stored.
-`eofFails` (the code now): an `io.EOF` handed to `Close` is stored as Unknown "EOF" — `io.EOF` is the client
-half's sentinel for a clean end, a handler that returns it has failed.  Result: the error value `RecvMsg` returns
-at the end of the call (`none` = `io.EOF`, the clean end). -/
+`eofFails` (the code now, 1e87efa + 0d02060): a stored `io.EOF` is reported by `closeErrLocked()` as Unknown "EOF" —
+`io.EOF` is the client half's sentinel for a clean end, a handler that returns it has failed.  Result: the error
+value `RecvMsg` returns at the end of the call (`none` = `io.EOF`, the clean end). -/
 def closeErr (eofFails : Bool) : Option GoErr → Option GoErr
   | none => none
   | some e =>
